@@ -14,10 +14,10 @@ func TestCheck(t *testing.T) {
 	walrig.RunCheck(t, walrig.Params{
 		Part:         "main",
 		Driver:       walrig.HarnessDriver(),
-		Quick:        60,
-		Thorough:     3000,
-		BulkPercent:  20,
-		MinCuts:      [2]int64{10000, 500000},
+		Quick:        45,
+		Thorough:     1200,
+		BulkEvery:    5,
+		MinCuts:      [2]int64{8000, 300000},
 		MinAutoRot:   3,
 		MinPurgeRemv: 5,
 	})
